@@ -890,7 +890,7 @@ def add_queries(P, ch, feat, n=1):
 # ------------------------------------------------------------------------------------------------
 # recursion-heavy workloads (used where the property is about the fixpoint loop itself: C09, C23, C03, C22 ...)
 
-def gen_recursive(ch, max_nodes=9, max_edges=18, npatterns=(1, 3), allow_neg=True):
+def gen_recursive(ch, max_nodes=9, max_edges=18, npatterns=(1, 3), allow_neg=True, flag=False):
     """random graph EDB + 1-3 recursive patterns (linear / non-linear transitive closure, bounded counters, mutual
     recursion, same-generation, reachability with a negated lower-stratum filter), each with small random variations.
     All strata need several iterations by construction."""
@@ -935,7 +935,7 @@ def gen_recursive(ch, max_nodes=9, max_edges=18, npatterns=(1, 3), allow_neg=Tru
         g = len(P.groups)
         binaries = [P.rels[x] for x in P.order if len(P.rels[x].types) == 2 and P.rels[x].group != g]
         base = ch.choice(binaries)   # an earlier binary relation (edge relation or an earlier closure)
-        kind = ch.weighted([(3, "tc"), (2, "tc2"), (2, "counter"), (2, "mutual"), (2, "sg"), (2, "reach")])
+        kind = ch.weighted([(3, "tc"), (2, "tc2"), (2, "counter"), (2, "mutual"), (2, "sg"), (2, "reach")] + ([(2, "flag")] if flag else []))
         if kind in ("tc", "tc2"):
             r = new_rel(2, g)
             P.groups.append([r.name])
@@ -987,6 +987,35 @@ def gen_recursive(ch, max_nodes=9, max_edges=18, npatterns=(1, 3), allow_neg=Tru
             rule = Rule(Atom(r.name, [X, Y]), [Atom(base.name, [A, X]), Atom(r.name, [A, B]), Atom(base.name, [B, Y])])
             rule.tags.add("rec")
             P.rules.append(rule)
+        elif kind == "flag":
+            # reachability gated by a nullary relation of the same stratum that becomes true in some later iteration
+            r = new_rel(1, g)
+            fl = new_rel(0, g)
+            P.groups.append([r.name, fl.name])
+            P.rules.append(Rule(Atom(r.name, [X]), [Atom("e1", [X])]))
+            trig = [Atom(r.name, [X]), Atom(base.name, [X, Y])]
+            if ch.bool(0.5):
+                trig.append(Atom(r.name, [Y]))
+            if ch.bool(0.5):
+                trig.append(Cmp("!=", X, Y, NUMBER))
+            fr = Rule(Atom(fl.name, []), trig)
+            fr.tags.add("rec")
+            P.rules.append(fr)
+            if ch.bool(0.6):
+                # some progress that does not need the flag
+                pr = Rule(Atom(r.name, [Y]), [Atom(r.name, [X]), Atom(base.name, [X, Y]), Cmp("<", X, Y, NUMBER)])
+                pr.tags.add("rec")
+                P.rules.append(pr)
+            body = [Atom(r.name, [X]), Atom(fl.name, []), Atom(base.name, [X, Y])]
+            if ch.bool(0.3):
+                body = [body[1], body[0], body[2]]
+            rule = Rule(Atom(r.name, [Y]), body)
+            rule.tags.add("rec")
+            P.rules.append(rule)
+            if ch.bool(0.3):
+                rule2 = Rule(Atom(r.name, [X]), [Atom(base.name, [X, Y]), Atom(r.name, [Y]), Atom(fl.name, [])])
+                rule2.tags.add("rec")
+                P.rules.append(rule2)
         else:  # reach
             r = new_rel(1, g)
             P.groups.append([r.name])
